@@ -4,7 +4,7 @@ from __future__ import annotations
 import ast
 
 from ..core import rule
-from ..errors import AnalysisError
+from ..errors import AnalysisError, FormNotRecognised
 from ..idx import index
 from ..px import OK, PX, RAISE, Outcomes
 from ..pxv import Obj, Sym
@@ -75,7 +75,7 @@ def header_of(p, want_event=False):
     return None
 
 
-@rule("R06.1", ["C06", "C07"], "T-ORD", floor=768)
+@rule("R06.1", ["C06", "C07", "C08"], "T-ORD", floor=768)
 def r06_1(ctx):
     """In ProtocolHandler.command, for every sequence value 0..255 and each of the three header layouts: the
     header carries the current sequence number, the pending entry is registered under that same number with the
@@ -275,7 +275,7 @@ def init_handler(ctx, v):
     return paths[0].store["self"]
 
 
-@rule("R06.7", ["C06", "C08", "C19"], "T-FUN", floor=60)
+@rule("R06.7", ["C06", "C08", "C19", "C07"], "T-FUN", floor=60)
 def r06_7(ctx):
     """Reply / callback demultiplexing in ProtocolHandler.__call__ over {pending, not pending} x {expected frame,
     another known frame with the same or a different response schema, invalidCommand, unknown ID} x {decodes,
@@ -472,7 +472,7 @@ def spec_header(v, seq, cid):
     return bytes([seq, 0x00, 0x01, cid & 0xFF, cid >> 8])
 
 
-@rule("R07.3", ["C07", "C09", "C08"], "T-FUN", floor=100)
+@rule("R07.3", ["C07", "C09", "C08", "C06"], "T-FUN", floor=100)
 def r07_3(ctx):
     """Header writer and reader of every version against the specified layouts (v4: seq,00,id; v5-7:
     seq,00,FF,00,id; v8-14: seq,00,01,id_lo,id_hi): the writer emits exactly the header for the smallest, largest
@@ -511,6 +511,20 @@ def r07_3(ctx):
                           and isinstance(r[2], (bytes, bytearray)) and bytes(r[2]) == payload)
                     ctx.require(ok, f"v{v}:rx:{name}:{seq}:{len(payload)}", f"v{v} header reader on {bytes(hdr).hex()}+{payload.hex()} -> {r!r:.80}; "
                                 f"must be ({seq}, 0x{cid:X}, payload)", func=rxm)
+        # the frame-control byte of a response carries status bits (overflow, truncated, callback pending, callback type,
+        # network index): whatever they are, the reader recovers the same sequence number, frame ID and payload
+        cid0, name0 = ids[len(ids) // 2]
+        base = bytearray(spec_header(v, 0x5C, cid0))
+        for fc in range(256):
+            base[1] = fc
+            ps = px.explore(rxm, lambda: (self_obj(c, {}), {"data": bytes(base) + b"\x09"}))
+            if len(ps) != 1:
+                raise AnalysisError(f"v{v} header reader: {len(ps)} paths")
+            r = ps[0].value
+            ok = (ps[0].terminal == "return" and isinstance(r, tuple) and len(r) == 3 and r[0] == 0x5C and r[1] == cid0
+                  and isinstance(r[2], (bytes, bytearray)) and bytes(r[2]) == b"\x09")
+            ctx.require(ok, f"v{v}:rx-frame-control:{'response' if fc & 0x80 else 'other'}", f"v{v} header reader with frame control 0x{fc:02X}: {r!r:.80}; must be "
+                        f"(0x5C, 0x{cid0:X}, payload) for every value of the control byte (a response with status bits set still answers its command)", func=rxm)
         hl = len(spec_header(v, 0, 0))
         for cid in (0x05, 0x06, 0x9D, 0xF1, 0x00):
             full = bytearray(spec_header(v, 9, cid))
@@ -521,6 +535,131 @@ def r07_3(ctx):
                             f"v{v} header reader accepts a {n}-byte frame ({bytes(full[:n]).hex()}) as {ps[0].value!r:.60}: truncated headers must raise "
                             "(inside the contained region)", func=rxm)
     ctx.sample({"v4": spec_header(4, 0xAB, 0).hex(), "v5": spec_header(5, 0xAB, 0).hex(), "v9 getTokenCount": spec_header(9, 0xAB, 0x100).hex()})
+
+
+@rule("R07.7", ["C07"], "T-FUN", floor=4)
+def r07_7(ctx):
+    """Overriding decoders of wire structs are transparent for well-formed input: every struct class of bellows.types that
+    overrides ``deserialize`` decodes a full-length encoding - whatever its leading bitmask / field values and whether or
+    not further bytes follow - from exactly the bytes it is given (the work-around for the 24-byte short form of
+    EmberKeyStruct may rewrite only that short form); otherwise the encoding of a value fed back through the receive path
+    would not yield that value."""
+    repo = ctx.repo
+    found = 0
+    for rel in repo.files():
+        mod = repo.modname(rel)
+        if not mod.startswith("bellows.types"):
+            continue
+        for st in repo.tree(mod).body:
+            if not isinstance(st, ast.ClassDef):
+                continue
+            c = repo.cls(mod, st.name)
+            if not c.is_struct or not isinstance(c.attrs.get("deserialize"), FuncRef):
+                continue
+            m = c.attrs["deserialize"]
+            found += 1
+            ctx.fn(m)
+            sizes = []
+            for fn_, fty, _d in c.struct_fields():
+                w = _wire_width(fty)
+                if w is None:
+                    raise FormNotRecognised(f"{c.name}.{fn_}: field of variable width in a struct with an overriding decoder")
+                sizes.append(w)
+            full = sum(sizes)
+            px = PX(repo, inline=lambda g, aw: not g.is_async, max_depth=6,
+                    models=[("super().deserialize", lambda px_, t, a, k, fr: (Sym("decoded"), b""))])
+            for lead in (0x0000, 0x0080, 0x0100, 0x0180, 0x00F4, 0x8000, 0xFFFF):
+                for extra in (0, 3):
+                    body = lead.to_bytes(2, "little") + bytes((17 * i + 3) & 0xFF for i in range(full - 2 + extra))
+                    paths = px.explore(m, lambda: (c, {"data": body}))
+                    ctx.case(1)
+                    for p in paths:
+                        sup = [e for e in p.events if e.kind == "call" and e.what == "super().deserialize"]
+                        ok = p.terminal == "return" and len(sup) == 1 and isinstance(sup[0].args[0], (bytes, bytearray)) and bytes(sup[0].args[0]) == body
+                        ctx.require(ok, f"transparent:{c.name}:{lead:#06x}:{'+trailing' if extra else 'exact'}",
+                                    f"{c.name}.deserialize on a full-length encoding ({len(body)} bytes, leading field {lead:#06x}) hands "
+                                    f"{bytes(sup[0].args[0]).hex() if sup and isinstance(sup[0].args[0], (bytes, bytearray)) else [e.args for e in sup]!r:.90} to the struct decoder instead of the "
+                                    "bytes received: a valid value does not survive the receive path", func=m, trace=p.trace(12))
+    ctx.anchor(found >= 1, "a struct class with an overriding deserialize (EmberKeyStruct)")
+
+
+def _wire_width(t):
+    """Byte width of a fixed-width wire type (zigpy ints, enums/bitmaps, EUI64, 16-byte keys), else None."""
+    import re
+
+    from ..px import int_type_of
+
+    names = []
+    if isinstance(t, ClassRef):
+        names = t.base_names()
+    elif isinstance(t, TypeRef):
+        names = [t.short]
+    for n in names:
+        m = re.fullmatch(r"(?:u?int|enum|bitmap)(\d+)(?:_t|s)?", n)
+        if m:
+            return int(m.group(1)) // 8
+        if n in ("EUI64", "ExtendedPanId"):
+            return 8
+        if n in ("KeyData",):
+            return 16
+    return None
+
+
+@rule("R07.8", ["C07", "C08"], "T-FUN", floor=20)
+def r07_8(ctx):
+    """The primitive wire codecs are zigpy's (trusted base): no class of bellows.types re-implements ``serialize`` /
+    ``deserialize`` of a primitive type.  Where one does (a subclass of a length-prefixed byte string with its own
+    decoder), it is no longer covered by the trusted base and is compared with a reference codec on complete, trailing
+    and truncated inputs: same value and remainder, and an exception for *every* truncated input (the containment of
+    malformed frames relies on field decoders raising on short data).  Struct decoders are R07.7's."""
+    repo = ctx.repo
+    px = PX(repo, inline=lambda g, aw: not g.is_async, max_depth=6)
+    for mod in ("bellows.types.basic", "bellows.types.named", "bellows.types.struct"):
+        for st in repo.tree(mod).body:
+            if not isinstance(st, ast.ClassDef):
+                continue
+            c = repo.cls(mod, st.name)
+            own = [n for n in ("serialize", "deserialize") if isinstance(c.attrs.get(n), FuncRef)]
+            if not own or c.is_struct:
+                ctx.ok(1, (mod, st.name))
+                continue
+            if "LVBytes" not in c.base_names()[1:] and "_LVBytes" not in [text(b) for b in st.bases]:
+                raise AnalysisError(f"{mod}.{st.name} re-implements {own} of a primitive wire type this analysis has no reference codec for")
+            if "deserialize" not in own:
+                raise AnalysisError(f"{mod}.{st.name} re-implements {own}; only decoders of length-prefixed byte strings have a reference here")
+            m = c.attrs["deserialize"]
+            ctx.fn(m)
+            for sub in [c] + [repo.cls(mod, s2.name) for s2 in repo.tree(mod).body if isinstance(s2, ast.ClassDef) and s2.name != st.name
+                              and st.name in [text(b) for b in s2.bases]]:
+                try:
+                    pl = sub.lookup("_prefix_length")
+                except KeyError:
+                    pl = 1
+                if not isinstance(pl, int):
+                    raise AnalysisError(f"{sub.name}._prefix_length does not resolve")
+                for n in (0, 1, 5, 40):
+                    payload = bytes((7 * i + 1) & 0xFF for i in range(n))
+                    full = n.to_bytes(pl, "little") + payload
+                    cases = [(full, payload, b""), (full + b"xy", payload, b"xy")] + [(full[:k], None, None) for k in sorted({0, pl - 1, pl, len(full) - 1}) if 0 <= k < len(full)]
+                    for data, want_v, want_rest in cases:
+                        paths = px.explore(m, lambda: (sub, {"data": data}))
+                        ctx.case(1)
+                        if len(paths) != 1:
+                            raise AnalysisError(f"{sub.name}.deserialize: {len(paths)} paths on concrete input")
+                        p = paths[0]
+                        if want_v is None:
+                            ctx.require(p.terminal == "raise", f"codec:{sub.name}:truncated", f"{sub.name}.deserialize accepts the truncated input {data.hex()} "
+                                        f"(length prefix {n}, {max(len(data) - pl, 0)} bytes present) as {p.value!r:.60}: a frame cut inside this field then decodes and "
+                                        "reaches the callbacks", func=m, trace=p.trace(8))
+                        else:
+                            v = p.value if p.terminal == "return" else None
+                            got = None
+                            if isinstance(v, tuple) and len(v) == 2:
+                                first = v[0]
+                                raw = first.fields.get("args", (None,))[0] if isinstance(first, Obj) and first.fields.get("args") else first
+                                got = (bytes(raw) if isinstance(raw, (bytes, bytearray)) else raw, bytes(v[1]) if isinstance(v[1], (bytes, bytearray)) else v[1])
+                            ctx.require(got == (want_v, want_rest), f"codec:{sub.name}:complete", f"{sub.name}.deserialize({data.hex()}) = {p.value!r:.80}, reference "
+                                        f"({want_v.hex()}, {want_rest.hex()})", func=m, trace=p.trace(8))
 
 
 @rule("R07.5", ["C07"], "T-FUN", floor=16)
@@ -796,3 +935,40 @@ def r06_9(ctx):
             ctx.require(p.terminal == "return" and got == ["handlerA.nop", "handlerB.nop"], f"current-handler:{ver_a}->{ver_b}",
                         f"two nop commands around a handler replacement (version {ver_a} -> {ver_b}) are sent through {got}; the second must use the "
                         "new handler", func=f, trace=p.trace(10))
+
+
+@rule("R06.10", ["C06", "C09"], "T-FUN", floor=1)
+def r06_10(ctx):
+    """A command issued while EZSP is stopped (a reset is in progress) either fails at once with EzspError, or - if the
+    implementation waits for the restart - goes through the handler the restart installed (legacy framing until the
+    version has been negotiated again); it never goes through the handler that was current when the call began."""
+    repo = ctx.repo
+    f = repo.func("bellows.ezsp:EZSP._command")
+    ctx.fn(f)
+    ez = repo.cls("bellows.ezsp", "EZSP")
+    state = {}
+
+    def restart(px_, t, a, k, fr):
+        me = state["me"]
+        me.fields["_protocol"] = Obj(TypeRef("Handler"), {}, tag="handlerB")
+        me.fields["_ezsp_version"] = 4
+        state["running"] = True
+        return Outcomes(OK(True))
+
+    px = PX(repo, inline=same_class(stop=("handle_callback",)),
+            models=[("*.is_set", lambda px_, t, a, k, fr: state.get("running", False)), ("*.wait", restart), ("asyncio.wait_for", restart), ("await:*wait*", restart)])
+    px.inline.root = f
+
+    def entry():
+        state.clear()
+        state["me"] = self_obj(ez, {"_protocol": Obj(TypeRef("Handler"), {}, tag="handlerA"), "_ezsp_version": 8})
+        px.top_frame = None
+        px.call_function(f, state["me"], ["nop"], {}, None)
+        return None
+
+    for p in px._run(entry):
+        sent = [e.callee for e in p.events if e.kind == "await" and e.callee and e.callee.endswith(".nop")]
+        ok = (p.raised("EzspError") and not sent) or (p.terminal == "return" and sent == ["handlerB.nop"])
+        ctx.require(ok, "restart-during-command", f"a command begun while EZSP is stopped and resumed after the restart is sent through {sent} "
+                    f"({p.terminal} {p.value if p.terminal == 'raise' else ''}); it must fail with EzspError or use the handler installed by the restart", func=f,
+                    trace=p.trace(12))
